@@ -22,6 +22,7 @@ import (
 	"net"
 	"net/netip"
 	"os"
+	"runtime/pprof"
 	"sort"
 	"strings"
 	"sync"
@@ -306,10 +307,26 @@ func (w *world) addPeer(n sx.Node) {
 	w.peers[n.At(0).Atom] = &fakePeer{name: n.At(0).Atom, addr: v4(n.At(1).Atom), as: uint32(n.At(2).Uint()), id: v4(n.At(1).Atom)}
 }
 
+func (w *world) state(addr string) string {
+	st := ""
+	w.s.ListPeer(context.Background(), &api.ListPeerRequest{Address: addr}, func(p *api.Peer) {
+		st = strings.ToLower(strings.TrimPrefix(p.State.SessionState.String(), "SESSION_STATE_"))
+	})
+	return st
+}
+
 func (w *world) up(n sx.Node) {
 	p := w.peers[n.At(1).Atom]
 	if p == nil {
 		return
+	}
+	// let the FSM leave Idle (idle-hold timer) before the connection arrives, as a real dialler would retry
+	for i := 0; i < 40; i++ {
+		synctest.Wait()
+		if st := w.state(p.addr.String()); st == "active" || st == "" {
+			break
+		}
+		time.Sleep(time.Second)
 	}
 	a, b := net.Pipe()
 	srv := &pipeConn{Conn: a, local: &net.TCPAddr{IP: w.local.AsSlice(), Port: 179}, remote: &net.TCPAddr{IP: p.addr.AsSlice(), Port: 30000}}
@@ -374,6 +391,9 @@ func (w *world) up(n sx.Node) {
 			p.send(bgp.NewBGPKeepAliveMessage(), nil)
 		}
 	}()
+	if ok, _ := hasOpt(n, 2, "nowait"); !ok {
+		synctest.Wait()
+	}
 	if hold >= 3 {
 		if ok, _ := hasOpt(n, 2, "silent"); !ok {
 			go func(c net.Conn, done chan struct{}) {
@@ -605,14 +625,22 @@ func (w *world) step(n sx.Node) {
 }
 
 func runScenario(t *testing.T, line string) (out string) {
+	var w *world
+	completed := false
 	defer func() {
 		if r := recover(); r != nil {
-			out = "panic " + strings.ReplaceAll(fmt.Sprint(r), "\n", " ")
+			msg := strings.ReplaceAll(fmt.Sprint(r), "\n", " ")
+			if completed && strings.Contains(msg, "blocked goroutines remain") {
+				// every step ran and the observations are complete; goroutines were still blocked after
+				// Stop() -- reported as a marker (it matters to C20, not to the routing observations)
+				out = "ok " + strings.Join(w.out, " ") + " (goroutines-remain-after-stop)"
+				return
+			}
+			out = "panic " + msg
 		}
 	}()
 	ns := sx.MustParse(line)
 	sc := ns[0]
-	var w *world
 	synctest.Test(t, func(t *testing.T) {
 		g := sc.At(1)
 		s := server.NewBgpServer()
@@ -638,6 +666,10 @@ func runScenario(t *testing.T, line string) (out string) {
 		}
 		s.Stop()
 		synctest.Wait()
+		if os.Getenv("VERIF_SIM_STACKS") != "" {
+			pprof.Lookup("goroutine").WriteTo(os.Stderr, 1)
+		}
+		completed = true
 	})
 	return "ok " + strings.Join(w.out, " ")
 }
